@@ -50,6 +50,9 @@ func (p *Publish) Decode(src []byte) (int, error) {
 		return total, err
 	}
 
+	// ignore bytes that follow the packet
+	src = limitToPacket(src)
+
 	// read flags
 	p.Dup = ((flags >> 3) & 0x1) == 1
 	p.Message.Retain = (flags & 0x1) == 1
